@@ -75,6 +75,20 @@ theorem run_refines : ∀ (ops : List Op) (s : Sys), Quiet s → s.buf.Inv → w
       rw [hstep.abs] at this
       exact this
 
+/-- the archive of `TermSegments` stays within the budget -/
+theorem run_segs_le : ∀ (ops : List Op) (s : Sys), Quiet s → s.buf.Inv → wfRun s.buf.abs ops = true →
+    s.buf.segs.arch.length + budget ops ≤ maxSegs → (Sys.run s ops).1.buf.segs.arch.length ≤ maxSegs := by
+  intro ops
+  induction ops with
+  | nil => intro s _ _ _ hb; simpa [Sys.run, budget] using hb
+  | cons op ops ih =>
+    intro s hq hi hwf hb
+    simp only [wfRun, Bool.and_eq_true] at hwf
+    simp only [budget] at hb
+    have hstep := execOp_refines hq hi hwf.1 (by omega)
+    simp only [Sys.run]
+    exact ih (execOp s op).1 hstep.quiet hstep.inv (by rw [hstep.abs]; exact hwf.2) (by have := hstep.segs; omega)
+
 /-- **C19 (well-formed streams, full strength).** Whatever the store flavour and whatever the IO schedule chosen by
     the operations' annotations. -/
 theorem buf_refines_plain (ops : List Op) (keepBoundary : Bool) (file : Option FileImg)
@@ -160,5 +174,40 @@ theorem weak_statement_false : ¬ WeakStatement := by
   have := (h gapWitness (by decide) (by decide)).entryTerm 2
   rw [gapWitness_entryTerm.1, gapWitness_entryTerm.2] at this
   cases this
+
+/-! ### without the 1024-entry bound: the statement is false (the log panics) -/
+
+/-- the statement without the capacity bound: on a well-formed stream no query of the log ever panics -/
+def UnboundedStatement : Prop :=
+  ∀ ops : List Op, wfRun {} ops = true → snapPanics (Sys.run {} ops).1.buf = false
+
+/-- 1026 entries with 1026 different terms: 1025 segments get archived, `seg_count` = 1025 > 1024 -/
+def capWitness : List Op :=
+  [ .append ((List.range 1026).map fun i => { index := i + 1, term := i + 1, payload := 0 }) ]
+
+theorem capWitness_wf : wfRun {} capWitness = true := by decide +kernel
+
+/-- `entry_term(1)` takes the cold path of `TermSegments::get`, which indexes `seg_starts[1024]` -/
+theorem capWitness_panics : snapPanics (Sys.run {} capWitness).1.buf = true := by decide +kernel
+
+theorem segment_cap_statement_false : ¬ UnboundedStatement := by
+  intro h
+  have := h capWitness capWitness_wf
+  rw [capWitness_panics] at this
+  cases this
+
+/-- under the bound of the main theorem nothing panics: the archive never outgrows its arrays -/
+theorem no_panic_of_budget (ops : List Op) (hwf : wfRun {} ops = true) (hbud : budget ops ≤ maxSegs) :
+    snapPanics (Sys.run {} ops).1.buf = false := by
+  have h := run_refines ops {} ⟨rfl, by simp⟩ Buf.Inv.init (by simpa [Buf.abs] using hwf) (by simpa using hbud)
+  -- the invariant says seg_count = number of archived slots; the budget keeps that ≤ 1024 (see `run_segs_le`)
+  have hcnt := h.2.1.seg.cnt
+  have hlen : (Sys.run {} ops).1.buf.segs.arch.length ≤ maxSegs := run_segs_le ops {} ⟨rfl, by simp⟩ Buf.Inv.init
+    (by simpa [Buf.abs] using hwf) (by simpa using hbud)
+  simp only [snapPanics, List.any_eq_false, Buf.entryTermPanics, Segs.getPanics, Bool.and_eq_true, not_and, Bool.not_eq_true]
+  intros
+  rw [hcnt]
+  simp only [decide_eq_false_iff_not]
+  omega
 
 end DEngine.C19
